@@ -1,0 +1,87 @@
+//! `rxpn`: the packet number a RECEIVED packet is processed under, through the real
+//! `packet_crypto::decrypt_packet_body` (C03: packet numbers of a hostile authenticated peer).
+//!
+//! Request (first token `rxpn` already removed):
+//!   rx <1..4 pn bytes hex> <rx_packet>    a 1-RTT packet whose truncated packet number is <hex>, arriving
+//!                                         at a Data space whose largest received packet number is
+//!                                         <rx_packet>; packet protection is the identity ("the peer holds
+//!                                         the keys")   -> ok <number> | drop | err <CODE>
+use bytes::{Bytes, BytesMut};
+
+use super::{num, unhex, Comp, BAD};
+use crate::connection::packet_crypto::decrypt_packet_body;
+use crate::connection::spaces::PacketSpace;
+use crate::crypto::{CryptoError, HeaderKey, KeyPair, Keys, PacketKey};
+use crate::packet::{Header, Packet, PacketNumber, SpaceId};
+use crate::{ConnectionId, Instant};
+
+struct Plain;
+
+impl PacketKey for Plain {
+    fn encrypt(&self, _packet: u64, _buf: &mut [u8], _header_len: usize) {}
+    fn decrypt(&self, _packet: u64, _header: &[u8], _payload: &mut BytesMut) -> Result<(), CryptoError> {
+        Ok(())
+    }
+    fn tag_len(&self) -> usize {
+        0
+    }
+    fn confidentiality_limit(&self) -> u64 {
+        u64::MAX
+    }
+    fn integrity_limit(&self) -> u64 {
+        u64::MAX
+    }
+}
+
+impl HeaderKey for Plain {
+    fn decrypt(&self, _pn_offset: usize, _packet: &mut [u8]) {}
+    fn encrypt(&self, _pn_offset: usize, _packet: &mut [u8]) {}
+    fn sample_size(&self) -> usize {
+        0
+    }
+}
+
+pub(super) struct RxPnC;
+
+impl Comp for RxPnC {
+    fn exec(&mut self, w: &[&str]) -> String {
+        match w {
+            ["rx", h, rx] => {
+                let (Some(b), Some(rx)) = (unhex(h), num(rx)) else {
+                    return BAD.into();
+                };
+                if b.is_empty() || b.len() > 4 {
+                    return BAD.into();
+                }
+                let mut r = std::io::Cursor::new(&b[..]);
+                let Ok(number) = PacketNumber::decode(b.len(), &mut r) else {
+                    return BAD.into();
+                };
+                let now = Instant::now();
+                let mut spaces = [PacketSpace::new(now), PacketSpace::new(now), PacketSpace::new(now)];
+                spaces[SpaceId::Data].rx_packet = rx;
+                spaces[SpaceId::Data].crypto = Some(Keys {
+                    header: KeyPair { local: Box::new(Plain), remote: Box::new(Plain) },
+                    packet: KeyPair { local: Box::new(Plain), remote: Box::new(Plain) },
+                });
+                let mut packet = Packet {
+                    header: Header::Short {
+                        spin: false,
+                        key_phase: false,
+                        dst_cid: ConnectionId::new(&[]),
+                        number,
+                    },
+                    header_data: Bytes::from_static(&[0x40]),
+                    payload: BytesMut::new(),
+                };
+                match decrypt_packet_body(&mut packet, &spaces, None, false, None, None) {
+                    Ok(Some(r)) => format!("ok {}", r.number),
+                    Ok(None) => "unprotected".into(),
+                    Err(None) => "drop".into(),
+                    Err(Some(e)) => format!("err {:?}", e.code),
+                }
+            }
+            _ => BAD.into(),
+        }
+    }
+}
